@@ -331,6 +331,14 @@ def r6(ctx):
                   f"reduced_rank argument is `{norm(a) if a is not None else 'missing'}`")
 
 
+
+def s1(ctx):
+    """shared mechanisms: every built-in contrast has n-1 distinct reduced columns (= C11.R1/R2); the working spec owns its encoder state (= C18.R1)"""
+    from .shared import relabel
+    from . import c11, c18
+    relabel(ctx, "C03.S1", c11.r1, c11.r2, c18.r1)
+
+
 RULES = [("C03.R1", r1), ("C03.R2", r2), ("C03.R3", r3), ("C03.R4", r4), ("C03.R5", r5), ("C03.R6", r6)]
 
 
@@ -381,4 +389,4 @@ def generic_eqhash(ctx, rule: str):
     ctx.floor(rule, n, 6, "classes defining both __eq__ and __hash__")
 
 
-THOROUGH = [("C03.T1", lambda ctx: generic_eqhash(ctx, "C03.T1"))]
+THOROUGH = [("C03.T1", lambda ctx: generic_eqhash(ctx, "C03.T1")), ("C03.S1", s1)]
